@@ -72,6 +72,14 @@ def main(argv):
         clean_failed, out0 = demo_result(wt, demo)
         report["demo_clean"] = "FAILS" if clean_failed else "passes"
         r = run(f"git apply {os.path.join(src, 'patch.diff')}", wt)
+        if r.returncode != 0:
+            # written against an earlier commit of /repo: apply with context fuzz and keep the re-based diff
+            r = run(f"patch -p1 -s -i {os.path.join(src, 'patch.diff')}", wt)
+            run("find . -name '*.orig' -delete", wt)
+            if r.returncode == 0:
+                rebased = run("git diff", wt).stdout
+                open(os.path.join(src, "patch.diff"), "w").write(rebased)
+                report["rebased_on_head"] = True
         report["patch_applies"] = r.returncode == 0
         if r.returncode != 0:
             print(json.dumps(report, indent=1), r.stderr)
